@@ -46,6 +46,20 @@ func decoyOCSP(t time.Time, salt int) *ocsp.Response {
 }
 
 // scope objects: one certificate struct per (server-auth, email, code-signing) combination
+// reusedCert: one certificate value edited in place and linted again and again (what a caller does who patches a
+// parsed certificate before re-linting it, as the repository's own test helper documents): nothing the framework
+// derived from the earlier content may survive
+var reusedCert = &x509.Certificate{}
+
+func scopeCertReused(sa, em, cs bool, nb time.Time, reuse bool) *x509.Certificate {
+	c := scopeCert(sa, em, cs, nb)
+	if !reuse {
+		return c
+	}
+	*reusedCert = *c
+	return reusedCert
+}
+
 func scopeCert(sa, em, cs bool, nb time.Time) *x509.Certificate {
 	c := &x509.Certificate{NotBefore: nb, NotAfter: decoyDate(nb, int(nb.Unix()&3))}
 	if sa {
@@ -184,7 +198,7 @@ func genProduct(out *Output, rng *Rng, limit int) {
 		if err != nil {
 			panic(err)
 		}
-		c := scopeCert(cb.sa, cb.em, cb.cs, cb.w.target)
+		c := scopeCertReused(cb.sa, cb.em, cb.cs, cb.w.target, rng.Bool())
 		ao := absCert(c)
 		ao.TU, ao.NU = cb.w.target, cb.w.target
 		o, log, repDiff := runOne(cb.kind, s, cfg, c, cb.w.target)
@@ -585,7 +599,7 @@ func genAll(out *Output, rng *Rng, nRegs int) {
 			logs[j] = nil
 		}
 		target := pick(rng, windowCases()).target
-		c := scopeCert(rng.Bool(), rng.Bool(), rng.Bool(), target)
+		c := scopeCertReused(rng.Bool(), rng.Bool(), rng.Bool(), target, rng.Bool())
 		ao := absCert(c)
 		ao.TU, ao.NU = target, target
 		var o RsObs
